@@ -32,10 +32,7 @@ def cfg(procs, maxops, pool, inits, emit=True, evids='{"e1", "e2"}', view=False)
 def model_and_vectors(ctx, procs, maxops, pool, inits, evids='{"e1", "e2"}', timeout=900):
     res = vlib.run_tlc(ctx, "MCRegistry", cfg(procs, maxops, pool, inits, evids=evids), timeout=timeout, tag="@@VEC")
     vlib.require_clean(res, "Registry (%s, %s procs, %s ops)" % (pool, len(procs), maxops))
-    uni = None
-    for line in res.lines:
-        if line.startswith('"@@UNI '):
-            uni = json.loads(vlib._tla_unquote(line)[6:])
+    uni = (res.mark("@@UNI") or [None])[0]
     if uni is None:
         raise vlib.MachineryError("MCRegistry did not export its universe")
     return res.vecs, uni
